@@ -30,7 +30,11 @@ func preLine(id, idx int, c *Case) {
 	for _, f := range c.Files {
 		fileParts = append(fileParts, hx.HexS(f.Name)+":"+hx.HexS(f.Content))
 	}
-	hx.Printf("pre %d idx=%d kind=run args=%s files=%s crashed=1 tag=%s\n", id, idx, hx.HexListS(args), strings.Join(fileParts, ","), sortedTags(c))
+	stdin := ""
+	if c.Stdin != "" {
+		stdin = " stdin=" + hx.HexS(c.Stdin)
+	}
+	hx.Printf("pre %d idx=%d kind=run args=%s files=%s%s crashed=1 tag=%s\n", id, idx, hx.HexListS(args), strings.Join(fileParts, ","), stdin, sortedTags(c))
 	hx.Flush()
 }
 
